@@ -69,9 +69,13 @@ func (w *walker) expr(e ast.Expr) {
 				if id, ok := kv.Key.(*ast.Ident); ok && e.Type != nil && w.localStruct(e.Type) {
 					loc := w.pi.pkg + "." + e.Type.(*ast.Ident).Name + "." + id.Name
 					w.emit(Op{T: "acc", Loc: loc, K: "w", Via: "plain", Base: "<literal>", Fresh: true}, kv.Pos())
-				} else {
-					w.expr(kv.Key)
+					w.expr(kv.Value)
+					if why := w.stateful(kv.Value); why != "" {
+						w.payload(loc, why, kv.Pos())
+					}
+					continue
 				}
+				w.expr(kv.Key)
 				w.expr(kv.Value)
 			} else {
 				w.expr(el)
